@@ -33,6 +33,8 @@ CLAIMED = {
          'Coq proof over the reset / load / NVRAM model + SHA-256 pin of the images + differential correspondence', 'DESIGN.md 7 C16'),
  'C17': ('proof', 'Theorems (virtual clock): source baud tables = model tables, every valid clock-select code x both sets gives 8..12 bit times of the data-sheet rate, receive transfers only after the deadline and re-armed one character time later, due byte moves on the next service, vertical blank only after its deadline and re-armed 1/60 s later, withdrawn on acknowledge; correspondence on pacing runs; partial: std::time::Instant of the unguarded build is not modelled.',
          'Coq proof over the timed DUART model (virtual clock) + differential correspondence + pacing monitor', 'DESIGN.md 7 C17'),
+ 'C18': ('proof', 'Theorems, each for EVERY machine state, operand mode and type (outcome = full final state or the error and the state it left): 2-operand = 3-operand with the destination repeated for ADD SUB MUL DIV MOD AND OR XOR x W/H/B; INC = ADD 1 (overflow test proved symmetric); DEC = SUB 1; TSTW = CMPW 0; CLR = MOV 0; MCOM = XOR with all ones; ALSW3 = LLSW3 (side-effect-free operand reads); operand access depends on the named slot only. Correspondence + monitor: both forms run from identical states in one case for all pairs incl. register-vs-memory operands, BIT/AND (N,Z), PUSHW+POPW vs MOVW and code placement / alignment, all 16 initial flag states sampled.',
+         'Coq proof of pairwise equality of the model arms + differential correspondence + pair monitor', 'DESIGN.md 7 C18'),
  'C20': ('proof', 'Theorems: mouse registers return the last reported coordinates and nothing else changes them, every button event raises the request, buttons 0-2 show level and change bit, other buttons only raise the request, the request persists across every operation but the IPCR read; correspondence + monitor.',
          'Coq proof over bus and DUART model + differential correspondence + monitor', 'DESIGN.md 7 C20'),
 }
